@@ -47,10 +47,13 @@ package authenticators
 //@   ensures sessionLifespan != nil && unixnano(sessionLifespan.exp) != zeroTimeNano() && unixnano(sessionLifespan.exp) >= 0 ==> ret0 <= max(0, (unixsec(unixnano(sessionLifespan.exp)) - unixsec(old(clock)) - 10) * 1000000000)
 
 // call sites of cache.Cache.Set (requires ttl > 0)
+// C11 / C05: whatever key is used - fetched or taken from the cache - it has passed the certificate
+// validation of *this* instance (ghost log vjwk) in this call; the cache key does not cover the
+// validation policy (validate_jwk, trust store), so a cached key is not "already validated".
 //@ func (*jwtAuthenticator).getKey
-//@   props C10 C05
+//@   props C10 C05 C11
 //@   logged gk
-//@   ensures ret1 == nil ==> (cget.n > old(cget.n) && cget.ret1[cget.n - 1] == nil) || (vjwk.n == old(vjwk.n) + 1 && vjwk.arg1[old(vjwk.n)] == ret0 && vjwk.ret0[old(vjwk.n)] == nil)
+//@   ensures ret1 == nil ==> vjwk.n > old(vjwk.n) && vjwk.arg1[vjwk.n - 1] == ret0 && vjwk.ret0[vjwk.n - 1] == nil
 
 // C11 / C05: whatever introspection response is used - fetched or taken from the cache - it has been
 // validated against the assertions of *this* instance (ghost log ival = IntrospectionResponse.Validate);
@@ -191,8 +194,7 @@ package authenticators
 //@   ensures ret1 == nil ==> vjwk.n > old(vjwk.n) && vjwk.arg1[vjwk.n - 1] == vtk.arg2[vtk.n - 1] && vjwk.ret0[vjwk.n - 1] == nil
 
 // "a key obtained from the configured key-set endpoint": the key a token is verified with has
-// passed validateJWK (certificate chain against the trust store, when configured) in this call, or
-// comes from the cache, where only keys that passed it are put (getKey, C10/C11).
+// passed validateJWK (certificate chain against the trust store, when configured) in this call.
 //@ func (*jwtAuthenticator).validateJWK
-//@   props C05
+//@   props C05 C11
 //@   logged vjwk
